@@ -31,7 +31,8 @@ LEVEL_TEXT = ("Exploration: hundreds (quick) to thousands (thorough) of generate
               "(0-25 files, nested and empty folders, non-swc files, differing file sets across "
               "roots) each driven through a history of 5-60 operations with the open log checked "
               "after every step; chains with empty members and chains of chains indexed over the "
-              "whole range [-N, N) and just outside it. Held = held on those executions.")
+              "whole range [-N, N) and just outside it. Held = held on those executions."
+              "Populations of 140-200 files are walked twice; map runs with verbose off and on with a deliberately slow first tree.")
 LEVEL_NOTE = ("'The i-th file' is the i-th entry of the library's own listing (Population.find_swcs), "
               "which must be a permutation of the layout's .swc files; the order of a directory walk "
               "is the operating system's. Population.map runs in worker processes and is decided at "
